@@ -4,7 +4,7 @@ import re
 from ..frontend import kids, walk, qn, qtype, dtype, pos, ancestors, AnalysisBroken, control_program
 from ..expr import callee, call_args, peel, Keys
 from ..callgraph import fname, CallGraph
-from ..lock import LockRegions, static_mutex_keys
+from ..lock import LockRegions, static_mutex_keys, is_internal, entry_held
 from ..effects import is_static_storage, thread_effects, var_refs
 
 FACTORY = 'cctz_extension::zone_info_source_factory'
@@ -44,8 +44,7 @@ def is_cache_map(d):
     return bool(re.search(r'\b(unordered_map|map)<\s*(std::)?(__cxx11::)?(basic_string<char|string)', t))
 
 
-def cache_refs(u, f):
-    """AST nodes in f that reference a static-storage string-keyed map."""
+def _direct_cache_refs(u, f):
     out = []
     for (i, name, node, w) in var_refs(f):
         d = u.by_id.get(i)
@@ -54,9 +53,77 @@ def cache_refs(u, f):
     return out
 
 
-def map_access(node):
-    """Classify the innermost call that uses map reference `node`:
-    ('read'|'write', call ast) or None (null test, allocation, ...)."""
+def cache_helpers(G):
+    """Internal-linkage functions that touch the name cache on behalf of their callers (and do not
+    themselves reach the factory): fkey -> dict(map=decl, kinds=set of accesses made inside,
+    returns_cache=does a return value derive from the cache)."""
+    if hasattr(G, '_cache_helpers'):
+        return G._cache_helpers
+    H = {}
+    G._cache_helpers = H
+    changed = True
+    while changed:
+        changed = False
+        for k, (u, f) in G.defs.items():
+            if k in H or not is_internal(f):
+                continue
+            direct = _direct_cache_refs(u, f)
+            via = [(t, site) for (kind, t, site) in G.edges.get(k, ()) if kind == 'direct' and t in H]
+            if not direct and not via:
+                continue
+            if any(e[0] == 'indirect' and e[1] == FACTORY for r in G.reachable([k]) for e in G.edges.get(r, ())):
+                continue
+            kinds = set()
+            for (d, node) in direct:
+                acc = map_access(node)
+                kinds.add(acc[0] if acc else 'other')
+            for (t, site) in via:
+                acc = map_access(site, G)
+                kinds.add(acc[0] if acc else 'other')
+            ids = set(d['id'] for (d, _) in direct)
+            derived = set()
+            for x in walk(f):
+                if x.get('kind') == 'VarDecl' and 'init' in x and mentions_cache(G, u, kids(x)[-1], ids | derived):
+                    derived.add(x['id'])
+            rets = [kids(x)[0] for x in walk(f) if x.get('kind') == 'ReturnStmt' and kids(x)]
+            H[k] = dict(map=(direct[0][0] if direct else H[via[0][0]]['map']), kinds=kinds,
+                        returns_cache=any(mentions_cache(G, u, r, ids | derived) for r in rets))
+            changed = True
+    return H
+
+
+def mentions_cache(G, u, e, ids):
+    """Does expression e name the cache map, a local derived from it (ids), or call a helper
+    whose result derives from the cache?"""
+    H = cache_helpers(G) if G is not None else {}
+    for x in walk(e):
+        if x.get('kind') == 'DeclRefExpr' and (x.get('referencedDecl') or {}).get('id') in ids:
+            return True
+        if H and x.get('kind') == 'CallExpr':
+            c = callee(x)
+            if c and c[0] == 'fn' and c[1].get('_qn'):
+                for t in G.resolve_decl(c[1]):
+                    if t in H and H[t]['returns_cache']:
+                        return True
+    return False
+
+
+def cache_refs(u, f, G=None):
+    """AST nodes in f that reference a static-storage string-keyed map: direct references and,
+    when the call graph is given, call sites of internal helpers that access it."""
+    out = _direct_cache_refs(u, f)
+    if G is not None:
+        H = cache_helpers(G)
+        from ..callgraph import fkey
+        for (kind, t, site) in G.edges.get(fkey(f), ()):
+            if kind == 'direct' and t in H and not any(site is n for (_, n) in out):
+                out.append((H[t]['map'], site))
+    return out
+
+
+def map_access(node, G=None):
+    """Classify the innermost call that uses map reference `node` (a reference to the map, or the
+    call site of a cache helper): ('read'|'write'|'erase', call ast) or None (null test, allocation, ...)."""
     for a in ancestors(node):
         k = a.get('kind')
         if k == 'CXXMemberCallExpr':
@@ -68,14 +135,23 @@ def map_access(node):
                     return ('write', a)
                 if c[1] in ('erase', 'clear', 'extract'):
                     return ('erase', a)
-            return None
+            break
         if k == 'CXXOperatorCallExpr':
             c = callee(a)
             if c and c[0] == 'fn' and c[1].get('name') == 'operator[]':
                 return ('write', a)     # operator[] inserts when absent
-            return None
+            break
         if k in ('BinaryOperator', 'DeclStmt', 'CompoundStmt', 'IfStmt', 'ReturnStmt'):
-            return None
+            break
+    if G is not None and node.get('kind') == 'CallExpr':
+        c = callee(node)
+        if c and c[0] == 'fn' and c[1].get('_qn'):
+            H = cache_helpers(G)
+            for t in G.resolve_decl(c[1]):
+                if t in H:
+                    for kind in ('erase', 'write', 'read'):
+                        if kind in H[t]['kinds']:
+                            return (kind, node)
     return None
 
 
@@ -153,7 +229,7 @@ def run(ctx):
         # function that owns the cache; report the site whose callee is not covered
         for (k, site) in steps:
             u, f = G.defs[k]
-            if cache_refs(u, f):
+            if cache_refs(u, f, G):
                 first_unlocked = (k, site)
                 break
         rep = first_unlocked or steps[-1]
@@ -169,7 +245,7 @@ def run(ctx):
         why = 'no function on the chain owns a name cache'
         for (k, site) in steps:
             u, f = G.defs[k]
-            crefs = cache_refs(u, f)
+            crefs = cache_refs(u, f, G)
             if not crefs:
                 continue
             lr = LockRegions(u, f)
@@ -188,7 +264,7 @@ def run(ctx):
                     continue
                 reads, writes = [], []
                 for (d, node) in crefs:
-                    acc = map_access(node)
+                    acc = map_access(node, G)
                     if acc is None:
                         continue
                     if not any(gg is guard for (_, gg) in lr.held_at(acc[1])):
@@ -206,7 +282,7 @@ def run(ctx):
             # loads never reach the factory).
             reads, writes = [], []
             for (d, node) in crefs:
-                acc = map_access(node)
+                acc = map_access(node, G)
                 if acc is None or not any(is_static_mutex_key(mk) for (mk, _) in lr.held_at(acc[1])):
                     continue
                 (reads if acc[0] == 'read' else writes if acc[0] == 'write' else []).append(acc[1])
@@ -245,7 +321,7 @@ def run(ctx):
 
     # ---- who may erase from the cache: only the documented test-only function
     for k, (u, f) in G.defs.items():
-        for (d, node) in cache_refs(u, f):
+        for (d, node) in _direct_cache_refs(u, f):
             acc = map_access(node)
             if acc and acc[0] == 'erase':
                 ctx.check(qn(f) == 'cctz::time_zone::Impl::ClearTimeZoneMapTestOnly', 'C20-once',
